@@ -59,6 +59,23 @@ class C05(Prop):
             ps = mode == "eq" and i % 2 == 0
             yield dict(entry=("ProbabilisticSerial" if ps else "SimultaneousEating") + ".bistochastic", family="random_" + mode, P=P,
                        speeds=[str(x) for x in sp], ps=ps, dtype=rng.choice(["int64", "float"]))
+        # speeds of very different magnitude: a slow eater's whole share is of the order of the 1e-5 .. 1e-7 tolerances in play
+        for i in range(30 if tier == "quick" else 600):
+            n = rng.randint(2, 4)
+            P = [rng.sample(range(1, n + 1), n) for _ in range(n)]
+            slow = [Fraction(4, 10 ** 6), Fraction(1, 10 ** 5), Fraction(25, 10 ** 5), Fraction(3, 10 ** 6), Fraction(1, 10 ** 4)]
+            sp = [Fraction(rng.randint(1, 3))] + [rng.choice(slow + [Fraction(1), Fraction(2)]) for _ in range(n - 1)]
+            rng.shuffle(sp)
+            yield dict(entry="SimultaneousEating.bistochastic", family="speed_ratio", P=P, speeds=[str(x) for x in sp], ps=False)
+        # halving chain: events at 1/2, 3/4, 7/8, ..., 1 - 2^-(n-1): agents that are ALMOST full when an event happens
+        for n in ([12, 18, 20] if tier == "quick" else [10, 12, 14, 16, 18, 19, 20, 21, 22]):
+            rows = [list(range(n)), [0, n - 1] + list(range(1, n - 1))] + [[i - 1] + [j for j in range(n) if j != i - 1] for i in range(2, n)]
+            P = []
+            for order in rows:          # order = items from best to worst -> ranks
+                rk = [0] * n
+                for pos, j in enumerate(order): rk[j] = pos + 1
+                P.append(rk)
+            yield dict(entry="ProbabilisticSerial.bistochastic", family="halving_chain", P=P, speeds=["1"] * n, ps=True)
 
     def run(self, case):
         from socialchoicekit.randomized_allocation import SimultaneousEating, ProbabilisticSerial
